@@ -21,6 +21,9 @@ type Op struct {
 	Rm    string         `json:"rm,omitempty"`  // restart: which index files to delete ("", all, hash, s, m, rand:<seed>)
 	Sel   uint64         `json:"sel,omitempty"` // gc: picks one of the legal ranges at run time
 	Merge bool           `json:"merge,omitempty"`
+	// restart: also reopen the same closed directory once per index-file subset
+	// ("" none, "sample", "exhaustive") and compare every variant with the model
+	Variants string `json:"variants,omitempty"`
 }
 
 type Item struct {
@@ -56,6 +59,13 @@ type SUT interface {
 	GC(sel uint64, merge bool) (info string, ran bool, err error)
 	// Info classifies where the key's current record lives (observed, not assumed).
 	Info(key string) (residence string, compressed bool)
+}
+
+// VariantRestarter is implemented by SUTs that can reopen one closed directory
+// several times, each time with another subset of index files deleted. probe is
+// called while the variant is open; the main variant (rm) stays open at the end.
+type VariantRestarter interface {
+	RestartVariants(rm, mode string, probe func(label string)) (removed []string, nvariants int, err error)
 }
 
 // Reporter is implemented by vfc.Result.
